@@ -68,7 +68,15 @@ def make_generate(version):
         add(9, 1, [10, 20, 70], 12, 100, 1, label="corpus")
         if version == "v2":
             add(7, 1, [32, 26, 11, 1], 10, label="corpus")
+        add(8, 1, [10, 4, 3, 2, 1], 30, label="corpus")
         quick = tier == "quick"
+        # Rate has fatal quantities at and above the sum of the priorities: a dominant first priority and a tail of small ones,
+        # every quantity up to a little beyond the sum (where "each priority gets at least its own value" looks plausible and is false)
+        for _ in range(20 if quick else 400):
+            k = rng.randrange(4, 7)
+            tail = sorted(rng.sample(range(1, 8), k - 1), reverse=True)
+            ps = [rng.randrange(tail[0] + 1, 3 * tail[0] + 4)] + tail
+            add(8, 1, ps, min(sum(ps) + rng.randrange(0, 12), 60 if quick else 150), label="rate-around-sum")
         # all priority sets within {1..6} (as given: sorted, reversed or shuffled), both dividers
         uni = [1, 2, 3, 4, 5, 6]
         sets = [list(c) for r in range(1, 7) for c in itertools.combinations(uni, r)]
